@@ -171,6 +171,7 @@ def _worker_main(rfd, wfd, idx):
                 fn(idx, scramble)
         if fault and fault[0] == "death" and fault[1] == "before":
             os._exit(17)
+        child_ctx.armed_inner = fault[1] if fault and fault[0] == "inner" else None
         try:
             if fault and fault[0] == "exc" and fault[1] == "before":
                 raise _make_injected(fault[2])
@@ -178,21 +179,39 @@ def _worker_main(rfd, wfd, idx):
             res = fn(*args, **kwargs)
             if fault and fault[0] == "exc" and fault[1] == "after":
                 raise _make_injected(fault[2])
-            reply = ("ok", pickle.dumps(res, protocol=pickle.HIGHEST_PROTOCOL))
+            reply = ["ok", pickle.dumps(res, protocol=pickle.HIGHEST_PROTOCOL), None]
         except BaseException as exc:  # noqa: B902 - mirror the real executor
             tb = "".join(traceback.format_exception(type(exc), exc, exc.__traceback__))
             try:
-                reply = ("exc", pickle.dumps(exc), tb)
+                reply = ["exc", pickle.dumps(exc), tb]
             except Exception:
-                reply = ("exc", pickle.dumps(RuntimeError(repr(exc))), tb)
+                reply = ["exc", pickle.dumps(RuntimeError(repr(exc))), tb]
+        # an armed in-task fault that no seam consumed did not fire
+        consumed = bool(fault and fault[0] == "inner" and child_ctx.armed_inner is None)
+        child_ctx.armed_inner = None
+        reply.append({"inner_consumed": consumed})
         if fault and fault[0] == "death" and fault[1] == "after":
             os._exit(17)
-        _send(wfd, reply)
+        _send(wfd, tuple(reply))
 
 
-def _make_injected(name):
+def maybe_inner_fault(site):
+    """Seam hook: raise the armed in-task fault (once) at an I/O-ish call site
+    *inside* the SUT's task function, so that handlers in the SUT see it."""
+    cur = _ctx.CUR
+    name = getattr(cur, "armed_inner", None) if cur is not None else None
+    if not name:
+        return
+    cur.armed_inner = None
+    raise _make_injected(name, site)
+
+
+def _make_injected(name, site=""):
     import errno
 
+    if name == "samtools":
+        import pysam
+        return pysam.SamtoolsError(f"injected samtools failure at {site}")
     if name == "oserror":
         return OSError(errno.EIO, "Input/output error (injected)")
     if name == "memory":
@@ -346,6 +365,9 @@ class SimPool:
             when = tape.choice(["before", "after"], "task.faultwhen")
             if fk == "death":
                 task.fault = ("death", when)
+            elif fk == "inner":
+                task.fault = ("inner", tape.choice(list(cfg.get("inner_excs") or ["oserror", "memory"]),
+                                                   "task.inner_exc"))
             else:
                 task.fault = ("exc", when,
                               tape.choice(["oserror", "memory", "runtime"], "task.exc"))
@@ -413,8 +435,9 @@ class SimPool:
             scramble = None
             if w.ntasks == 1 and ctx.pool_cfg["scramble_workers"]:
                 scramble = ctx.tape.subseed("worker.scramble")
-            if task.fault:
+            if task.fault and task.fault[0] != "inner":
                 ctx.fault("pool." + task.fault[0])
+            if task.fault:
                 ctx.event("task.fault", self.pid, tid, task.fault)
             if task.fault and task.fault[0] == "death":
                 try:
@@ -437,6 +460,9 @@ class SimPool:
                     task.reply = ("dead",)
                     ctx.note(f"worker {w.idx} of pool {self.pid} died unprompted")
             task.payload = None
+            if len(task.reply) > 3 and task.reply[3].get("inner_consumed"):
+                ctx.fault("pool.inner")
+                ctx.event("task.inner_fault_consumed", self.pid, tid)
             self._push(ctx.clock.now + task.duration, "done", task)
         else:  # done
             w.busy = None
